@@ -35,7 +35,9 @@ ASSUMPTIONS = [
 ]
 
 # plus the separate 'loop' case kind (run_loop)
-SCENARIOS = ('wrap_name', 'wrap_name_attr', 'binop_call', 'call_retarget', 'list_tuple', 'if_while', 'return_wrap', 'identity_name', 'expr_stmt_pass', 'identity_binop')
+SCENARIOS = ('wrap_name', 'wrap_name_attr', 'binop_call', 'call_retarget', 'list_tuple', 'if_while', 'return_wrap', 'identity_name', 'expr_stmt_pass', 'identity_binop',
+             # quantifier captures (partial slices of a container) moved to another place of the template
+             'compare_pick', 'list_rotate', 'call_rotate', 'body_rotate', 'boolop_rotate')
 
 
 def params(tier):
@@ -105,6 +107,16 @@ class Ref:
             return isinstance(n, ast.Return) and n.value is not None
         if s == 'expr_stmt_pass':
             return isinstance(n, ast.Expr) and isinstance(n.value, ast.Call)
+        if s == 'compare_pick':
+            return isinstance(n, ast.Compare)
+        if s == 'list_rotate':
+            return isinstance(n, ast.List) and isinstance(n.ctx, ast.Load) and len(n.elts) >= 1
+        if s == 'call_rotate':
+            return isinstance(n, ast.Call) and not n.keywords and len(n.args) >= 1
+        if s == 'body_rotate':
+            return isinstance(n, ast.If) and not n.orelse
+        if s == 'boolop_rotate':
+            return isinstance(n, ast.BoolOp)
 
         return False
 
@@ -143,6 +155,23 @@ class Ref:
             return ast.Return(value=ast.Tuple(elts=[T(n.value), ast.Constant(value=None)], ctx=L))
         if s == 'expr_stmt_pass':
             return ast.Pass()
+        if s == 'compare_pick':
+            # the head slice is itself a Compare that the (nested) walk reaches after the substitution: it is transformed as a node of its own
+            raw = [n.left] + list(n.comparators)
+            head = T(raw[0]) if len(raw) == 2 else T(ast.Compare(left=raw[0], ops=list(n.ops[:-1]), comparators=raw[1:-1], lineno=n.lineno, col_offset=n.col_offset))
+
+            return ast.Call(func=ast.Name(id='pick', ctx=L), args=[head, T(raw[-1])], keywords=[])
+        if s == 'list_rotate':
+            return ast.List(elts=[T(e) for e in n.elts[1:]] + [T(n.elts[0])], ctx=L)
+        if s == 'call_rotate':
+            return ast.Call(func=T(n.func), args=[T(e) for e in n.args[1:]] + [T(n.args[0])], keywords=[])
+        if s == 'body_rotate':
+            return ast.If(test=T(n.test), body=[T(b) for b in n.body[1:]] + [T(n.body[0])], orelse=[])
+        if s == 'boolop_rotate':
+            raw = list(n.values)
+            rest = T(raw[1]) if len(raw) == 2 else T(ast.BoolOp(op=n.op, values=raw[1:], lineno=raw[1].lineno, col_offset=raw[1].col_offset))
+
+            return ast.Call(func=ast.Name(id='f', ctx=L), args=[rest, T(raw[0])], keywords=[])
 
         raise AssertionError(s)
 
@@ -241,6 +270,19 @@ def pattern_and_template(scn):
         return MReturn(M(v=expr)), 'return (__FST_v, None)'
     if scn == 'expr_stmt_pass':
         return MExpr(MCall), 'pass'
+
+    from fst.match import MBoolOp, MCompare, MQSTAR
+
+    if scn == 'compare_pick':
+        return MCompare(_all=[MQSTAR(head=...), M(last=...)]), 'pick(__FST_head, __FST_last)'
+    if scn == 'list_rotate':
+        return MList(elts=[M(first=...), MQSTAR(rest=...)], ctx=Load), '[__FST_rest, __FST_first]'
+    if scn == 'call_rotate':
+        return MCall(func=M(f=...), args=[M(a0=...), MQSTAR(more=...)], keywords=[]), '__FST_f(__FST_more, __FST_a0)'
+    if scn == 'body_rotate':
+        return MIf(test=M(t=...), body=[M(s0=...), MQSTAR(tail=...)], orelse=[]), 'if __FST_t:\n    __FST_tail\n    __FST_s0'
+    if scn == 'boolop_rotate':
+        return MBoolOp(values=[M(a=...), MQSTAR(r=...)]), 'f(__FST_r, __FST_a)'
 
     raise AssertionError(scn)
 
@@ -361,7 +403,7 @@ def execute(case, ctx):
         raise Skip(f'reference_unparse_failed:{type(exc).__name__}') from None
 
     pat, repl = pattern_and_template(scn)
-    kw = {'nested': nested}
+    kw = {'nested': nested, 'norm': True}  # C01 is stated for normalisation enabled: without it a one-operand Compare / BoolOp slice is left as a degenerate node
 
     if count:
         kw['count'] = count
@@ -428,6 +470,9 @@ def execute(case, ctx):
     src_lines = src.split('\n')
 
     for n in ref.matched_nodes:
+        if getattr(n, 'end_lineno', None) is None:
+            continue  # a node the reference constructed itself (head of a Compare / rest of a BoolOp): it lies inside a matched original node
+
         lo, hi = n.lineno, n.end_lineno
 
         if isinstance(n, ast.expr) and code:
